@@ -128,6 +128,34 @@ func (r Result) Similar() bool {
 // favors performance over optimality. The exact output is not guaranteed to
 // be stable and may change over time.
 func Difference(nx, ny int, f EqualFunc) (es EditScript) {
+	// The longest sequence of non-matching symbols that can be tolerated is
+	// approximately the square-root of the search budget.
+	return difference(nx, ny, 4*(nx+ny), f) // O(n)
+}
+
+// Align is Difference with a much larger search budget: equal symbols are
+// found even when long runs of non-matching symbols surround them (about 250
+// in a row on each side, where Difference gives up after a handful). The
+// budget is only spent on symbols that do not match, so for lists that are
+// mostly equal it costs no more than Difference.
+//
+// astdiff uses it to line up the lists of a file before and after a change.
+// There a symbol that is equal on both sides but taken for modified is not
+// just a longer edit script: the comments inside it are treated as comments
+// of deleted code.
+func Align(nx, ny int, f EqualFunc) (es EditScript) {
+	extra := nx * ny
+	if extra > maxAlignBudget {
+		extra = maxAlignBudget
+	}
+	return difference(nx, ny, 4*(nx+ny)+extra, f)
+}
+
+// maxAlignBudget bounds the additional comparisons Align may spend, so that a
+// list of thousands of elements that were all rewritten stays cheap.
+const maxAlignBudget = 1 << 16
+
+func difference(nx, ny, searchBudget int, f EqualFunc) (es EditScript) {
 	// This algorithm is based on traversing what is known as an "edit-graph".
 	// See Figure 1 from "An O(ND) Difference Algorithm and Its Variations"
 	// by Eugene W. Myers. Since D can be as large as N itself, this is
@@ -173,10 +201,7 @@ func Difference(nx, ny int, f EqualFunc) (es EditScript) {
 	fwdFrontier := fwdPath.point // Forward search frontier
 	revFrontier := revPath.point // Reverse search frontier
 
-	// Search budget bounds the cost of searching for better paths.
-	// The longest sequence of non-matching symbols that can be tolerated is
-	// approximately the square-root of the search budget.
-	searchBudget := 4 * (nx + ny) // O(n)
+	// searchBudget bounds the cost of searching for better paths.
 
 	// The algorithm below is a greedy, meet-in-the-middle algorithm for
 	// computing sub-optimal edit-scripts between two lists.
